@@ -7,6 +7,7 @@
  * The optimality oracle lives in Python (lib/vf/pm.py). */
 #include "encode.c"
 #include <stdio.h>
+#include "globals.h"
 
 static uint64_t rng;
 static uint32_t rnd(void)
